@@ -12,3 +12,28 @@ func loadSDL(sdl string) (*ast.Schema, error) {
 	}
 	return s, nil
 }
+
+func derefStr(p *string) string {
+	if p == nil {
+		return ""
+	}
+	return *p
+}
+
+func deepCopyJSON(v interface{}) interface{} {
+	switch x := v.(type) {
+	case map[string]interface{}:
+		m := make(map[string]interface{}, len(x))
+		for k, c := range x {
+			m[k] = deepCopyJSON(c)
+		}
+		return m
+	case []interface{}:
+		l := make([]interface{}, len(x))
+		for i, c := range x {
+			l[i] = deepCopyJSON(c)
+		}
+		return l
+	}
+	return v
+}
